@@ -20,7 +20,7 @@ def lastSet : List Eff → Option Int
     | some d => some d
     | none => if e.name = "SetReadDeadline" then e.args.head? else none
 
-theorem lastSet_append_one (es : List Eff) (d : Int) : lastSet (es ++ [⟨"SetReadDeadline", [d]⟩]) = some d := by
+theorem lastSet_append_one (es : List Eff) (d : Int) : lastSet (es ++ [{ name := "SetReadDeadline", args := [d] }]) = some d := by
   induction es with
   | nil => simp [lastSet]
   | cons e rest ih => simp [lastSet, ih]
@@ -32,7 +32,7 @@ def R (timeout : Nat) (c : Code.natconn) (s : S) : Prop :=
 
 /-- what the translated function appended to the effect log, given the model's answer -/
 def effOf : Option Nat → List Eff
-  | some d => [⟨"SetReadDeadline", [(d : Int)]⟩]
+  | some d => [{ name := "SetReadDeadline", args := [(d : Int)] }]
   | none => []
 
 theorem dnsTimeout_is_generated : (17000000000 : Int) = (Gen.dnsTimeoutNs : Int) := by decide
